@@ -850,6 +850,7 @@ fn write_replay(
         .set("scenario", Json::str(full.clone()))
         .set("config", Json::str(config))
         .set("verif_seed", Json::Int(base as i128))
+        .set("tier", Json::str(std::env::var("VERIF_BATCH_TIER").unwrap_or_else(|_| "quick".to_string())))
         .set("run_index", Json::Int(f.idx as i128))
         .set("run_seed", Json::Str(format!("{seed:x}")))
         .set("violation", viol_json(&Violation { detail: detail.clone(), ..f.violation.clone() }))
@@ -987,6 +988,7 @@ fn batch(scs: &[Scenario], exe: &std::path::Path, config: &str, args: &[String])
     let jobs: usize = std::env::var("VERIF_JOBS").ok().and_then(|j| j.parse().ok()).unwrap_or(16);
     let scale: f64 = std::env::var("VERIF_RUNS_SCALE").ok().and_then(|j| j.parse().ok()).unwrap_or(1.0);
     let known = load_known();
+    std::env::set_var("VERIF_BATCH_TIER", tier);
     let t0 = Instant::now();
     let mine: Vec<&Scenario> = scs.iter().filter(|s| s.property == property).collect();
     if mine.is_empty() {
